@@ -4,8 +4,8 @@
    oracle (cmake -P, CMake's own modules), not modelled. *)
 From Coq Require Import String List NArith.
 From CMinx Require Import Base.Str Model.Lexer Model.Parser Model.DocTypes Model.Aggregator
-     Model.Pipeline Spec.AggSpec Proofs.LexerFacts Proofs.ParserFacts Proofs.AggInv
-     Proofs.CleanFacts.
+     Model.Pipeline Spec.AggSpec Spec.CMakeGrammar Proofs.LexerFacts Proofs.ParserFacts Proofs.AggInv
+     Proofs.CleanFacts Proofs.LayoutFacts Proofs.GrammarFacts Proofs.NoCrashFacts.
 Import ListNotations.
 
 (* UTF-8 text: decoding is total on encodings of scalar values and the inverse of encoding *)
@@ -50,3 +50,35 @@ Theorem C05_crash_iff_spec_none :
     aggregate default_flags trigger strip_fn strip_mac strip_mem f = Crash <-> expected_keys f = None.
 Proof. exact crash_iff_spec_none. Qed.
 Print Assumptions C05_crash_iff_spec_none.
+
+(* the reference grammar (Spec/CMakeGrammar.v: an abstract syntax of cmake-language(7) command
+   invocations with unquoted, quoted, bracket (any level) and parenthesised arguments and escape
+   sequences, written from the manual independently of CMake.g4): every well-formed file, printed
+   canonically, is lexed and parsed, and the invocations CMinx sees -- names and argument
+   boundaries -- are those of the reference syntax *)
+Theorem C05_valid_cmake_accepted :
+  forall a, wf_gfile a = true ->
+    exists ts f, lex (print_gfile a) = LexOk ts /\ parse ts = Some f
+                 /\ invocations_of_cfile f = invocations a.
+Proof. exact valid_cmake_accepted. Qed.
+Print Assumptions C05_valid_cmake_accepted.
+
+(* ... and under any amount of whitespace added before the file and at any piece boundary *)
+Theorem C05_valid_cmake_accepted_any_spacing :
+  forall a, wf_gfile a = true ->
+    exists ps, lex_all (print_gfile a) = LexOk ps /\
+    forall lead gaps,
+      forallb is_ws lead = true -> Forall (fun g => forallb is_ws g = true) gaps ->
+      exists ts f, lex (lead ++ respace ps gaps) = LexOk ts /\ parse ts = Some f
+                   /\ invocations_of_cfile f = invocations a.
+Proof. exact valid_cmake_accepted_any_spacing. Qed.
+Print Assumptions C05_valid_cmake_accepted_any_spacing.
+
+(* processed to completion: a file whose function/macro and class blocks are balanced (nested
+   view of Spec/AggSpec.v) and whose block headers carry a name never makes the aggregator raise *)
+Theorem C05_balanced_file_never_crashes :
+  forall trigger sf sm sme f nodes,
+    f_elems f = flatten_all nodes -> wf_nodes nodes = true -> hdrs_named nodes = true ->
+    aggregate default_flags trigger sf sm sme f <> Crash.
+Proof. exact balanced_file_never_crashes. Qed.
+Print Assumptions C05_balanced_file_never_crashes.
